@@ -31,8 +31,7 @@ def observe(rec: bytes, oid, how=0):
             buf = bytearray(rec)
             e = from_kd_buf(buf if how == 1 else memoryview(buf))
             buf[:] = bytes(b ^ 0xa5 for b in buf)          # the caller reuses its buffer for the next record
-            if not isinstance(e.data, bytes):
-                o['err'] = 'data-is-%s' % type(e.data).__name__
+            # (the TYPE of the argument-bytes field is not pinned; its CONTENT, read now, must still be the record's)
         o.update(ts=le(e.timestamp, 8), data=list(e.data), values=[le(v, 8) for v in e.values], tid=le(e.tid, 8),
                  debugid=le(e.debugid, 4), eventid=le(e.eventid, 4), qual=int(e.func_qualifier))
         if len(o['data']) != 32 or len(e.values) != 4:
